@@ -2,6 +2,7 @@
 import random as _random
 
 from rt import moltools as T, gen as G
+from rt.harness import h64
 from rt.oracles import symmetry as SY
 from chython import smiles
 from rt.enum import iso_key, small_graphs, ATOM_TYPES, SMALL, build_small
@@ -13,6 +14,7 @@ RULE = ('base molecules = corpus sample + curated feature molecules + ring assem
         're-description transformer (new sparse/colliding numbers, shuffled atom+bond insertion, stereo re-attached), '
         "the library's random-order writer in styles r/ra/rA/rh re-read, and RDKit random kekule spellings re-read; "
         'oracle: str/==/hash equal across descriptions after kekule();thiele(); a case is non-trivial and distinct by '
+        '(one of smiles_atoms_order / atoms_order / get_fast_mapping / hash read on the description before its string in 4 of 6 comparisons); a case is non-trivial and distinct by '
         'its canonical string when the molecule has a ring, a stereo label, a charge, an isotope or several components')
 REACH_FILES = ['chython/algorithms/morgan.py', 'chython/algorithms/stereo.py', 'chython/algorithms/smiles.py',
                'chython/periodictable/base/element.py', 'chython/containers/bonds.py']
@@ -23,12 +25,12 @@ CONFIG = {
     'quick': {'shards': 16, 'budget_s': 100, 'n_corpus': 1100, 'n_ring': 160, 'k_redescr': 3, 'k_writer': 3, 'k_rdkit': 2,
               'floors': {'evaluations': 4000, 'distinct_nontrivial': 600, 'descr.redescribe': 1500,
                          'descr.writer': 1500, 'descr.rdkit': 500, 'small.graphs': 3000, 'base.mixture': 1000,
-                         'base.symmetric-dimer': 300, 'base.partially-labelled': 100}, 'exhaustive_subspaces': ['labelled connected graphs <= 4 atoms (see rt/enum.py SMALL)']},
+                         'base.symmetric-dimer': 300, 'base.partially-labelled': 100, 'preread.smiles_atoms_order': 500}, 'exhaustive_subspaces': ['labelled connected graphs <= 4 atoms (see rt/enum.py SMALL)']},
     'thorough': {'shards': 16, 'budget_s': 1100, 'n_corpus': 4200, 'n_ring': 10000, 'k_redescr': 20, 'k_writer': 20,
                  'k_rdkit': 12,
                  'floors': {'evaluations': 40000, 'distinct_nontrivial': 3000, 'descr.redescribe': 15000,
                             'descr.writer': 15000, 'descr.rdkit': 5000, 'small.graphs': 50000, 'base.mixture': 1000,
-                            'base.symmetric-dimer': 300, 'base.partially-labelled': 100}, 'exhaustive_subspaces': ['labelled connected graphs <= 5 atoms (see rt/enum.py SMALL)']},
+                            'base.symmetric-dimer': 300, 'base.partially-labelled': 100, 'preread.smiles_atoms_order': 500}, 'exhaustive_subspaces': ['labelled connected graphs <= 5 atoms (see rt/enum.py SMALL)']},
 }
 WRITER_SPECS = ['r', 'ra', 'rA', 'rh', 'rAa']
 
@@ -70,8 +72,22 @@ def _nontrivial(m):
                 or m._cis_trans_count or m.connected_components_count > 1)
 
 
+PREREADS = (None, None, 'smiles_atoms_order', 'atoms_order', 'get_fast_mapping', 'hash')
+
+
 def compare(ctx, kind, base, other, src, extra):
-    """the oracle: three observables equal; on mismatch apply the recorded-gap predicates, else report"""
+    """the oracle: three observables equal; on mismatch apply the recorded-gap predicates, else report.
+    Before the string of the other description is read, one of the derived views that share its cache is read first
+    (chosen by the case, not by chance): the string must not depend on what was asked of the object before"""
+    pre = PREREADS[int(h64((src, extra)), 16) % len(PREREADS)]
+    if pre is not None:
+        ctx.count('preread.' + pre)
+        if pre == 'get_fast_mapping':
+            other.get_fast_mapping(base)
+        elif pre == 'hash':
+            hash(other)
+        else:
+            getattr(other, pre)
     s1, s2 = str(base), str(other)
     ok = s1 == s2 and base == other and hash(base) == hash(other)
     if ok:
